@@ -1143,3 +1143,8 @@ fn c13_fd_target_flags() {
     kani::cover!(direct, "direct");
     kani::cover!(!direct, "regular");
 }
+
+/// Read-only view of the resources stored in an operation state (NotStarted / Done / Complete-before-reuse only).
+pub(crate) fn peek_resources<R, A>(s: &State<Singleshot, R, A>) -> &R {
+    unsafe { &*data_of(s).tail.resources.get().cast::<R>() }
+}
